@@ -466,3 +466,4 @@ def run(chk):
     rule_wiring(chk)
     rule_serializer_flow(chk)
     rule_field_guard(chk)
+    common.rule_forwarding(chk, "C13", keys=[("_action", "start_action"), ("_action", "startTask"), ("_action", "Action.child"), ("_action", "Action.continue_task"), ("_action", "Action.__init__"), ("_action", "Action.log"), ("_action", "log_message"), ("_validation", "ActionType.__call__"), ("_validation", "ActionType.as_task"), ("_validation", "MessageType.log"), ("_validation", "MessageType.__call__"), ("_message", "Message.write"), ("_message", "Message.__init__"), ("_output", "Logger.write"), ("_output", "MemoryLogger.write")])
